@@ -164,6 +164,7 @@ def _run_merge(H, layout, mod, task):
         if after != before[0] or len(merged) != nl:
             H.fail(K + 'geometry', 'ids / geometry / order of the merged lines changed', lambda m_: case(m_, got=repr(after)))
             continue
+        margins = []
         for li, ml in enumerate(merged):
             # mean confidence of engine e for this line, as a z3 term
             means = []
@@ -174,6 +175,8 @@ def _run_merge(H, layout, mod, task):
                 else:
                     mean = sum(cvars[(e, li)]) / n
                     means.append(z3.If(fails[(e, li)], z3.RealVal('1/2'), mean))
+            # witnesses (replayed in floats) keep the means of different engines apart: an exact tie is broken by round-off there
+            margins += [z3.Or(means[a] - means[b] >= z3.RealVal('1/100'), means[b] - means[a] >= z3.RealVal('1/100')) for a in range(E) for b in range(a + 1, E)]
             got = lambda m_: {'line': li, 'logits': ml.logits, 'conf': mv(m_, ml.transcription_confidence) if isinstance(ml.transcription_confidence, S) else repr(ml.transcription_confidence)}
             tok = ml.logits
             w = int(tok.split('_')[1])
@@ -196,7 +199,7 @@ def _run_merge(H, layout, mod, task):
             H.claim(cond, K + 'not-best', 'merged line is not the first engine with the highest positive mean confidence, '
                     'or the recorded confidence is not that maximum', lambda m_: case(m_, got=got(m_)))
         H.witness(lambda m_: case(m_, expect=[[l.logits, (None if isinstance(l.transcription_confidence, str) else mv(m_, l.transcription_confidence))]
-                                              for l in merged]))
+                                              for l in merged]), extra=margins)
     return H.result()
 
 
